@@ -288,6 +288,28 @@ def run(pid, tier, seed, t0, asbuilt=None):
                               {"kind": "pool-trace", "clause": v["tag"], "at": v["l"] - v["base"], "records": recs})
         all_viol += mine
 
+    # ---- C06 at the key level: PoolKeys.tla (token map) + the many-origins scenario on the real pool
+    keys = None
+    if pid == "C06":
+        km = vlib.tlc("PoolKeys.tla", "PoolKeys_quick.cfg", pid, workers=2, timeout=600)
+        kr = vlib.tlc("PoolKeys.tla", "PoolKeys_reset.cfg", pid, workers=2, timeout=600)
+        if not km.finished or km.violated or kr.violated != "NoSharedToken":
+            raise vlib.ToolError("PoolKeys.tla: the as-built map must satisfy NoSharedToken and the reset-on-full variant must violate it")
+        mo = os.path.join(d, "manyorigins.ndjson")
+        n = 1100 if tier == "quick" else 5000
+        stats = json.loads(vlib.run_harness("pool", ["manyorigins", "--n", n, "--seed", seed, "--out", mo]))
+        r = vlib.tlc_trace("PoolKeysObs.tla", "PoolKeysObs.cfg", pid, mo, timeout=3000)
+        kv = r.printed("VIOL")
+        if not r.finished or len(kv) != 1:
+            raise vlib.ToolError("PoolKeysObs did not consume the trace")
+        recs = vlib.read_ndjson(mo)
+        nrec += len(recs)
+        for v in kv[0][:3]:
+            verdict.violation(v["tag"], f"request for {v['ro']} was served on a connection dialled for {v['co']} (record {v['l']} of the many-origins scenario)",
+                              {"kind": "pool-manyorigins", "n": n, "seed": seed, "record": recs[v["l"] - 1]})
+        all_viol += kv[0]
+        keys = {"model_states": km.distinct, "reset_variant_violates": kr.violated, "scenario": stats, "violations": len(kv[0])}
+
     # ---- trace validation of the random walks against Pool.tla itself (impl -> spec; DRIFT only)
     tv = None
     for wpath, small in wtraces:
@@ -328,6 +350,7 @@ def run(pid, tier, seed, t0, asbuilt=None):
                    "drift_kinds": rep["drift_kinds"], "drift_samples": rep["drift_samples"]},
         "drift": rep["drifted"] + (tv["runs_rejected"] if tv else 0),
         "walk_trace_validation": tv,
+        "key_level": keys,
         "walk": wk,
         "monitor_records": nrec,
         "monitor_on_model_behaviours": {"behaviours": min(len(behs), 400 if tier == "quick" else 4000), "clauses_flagged": model_flags},
@@ -345,6 +368,17 @@ def run(pid, tier, seed, t0, asbuilt=None):
 def replay(pid, path):
     """Re-validates the recorded real trace of a violation and re-executes its action sequence on the current tree."""
     obj = json.load(open(path))
+    if obj["replay"].get("kind") == "pool-manyorigins":
+        d = vlib.outdir(pid)
+        mo = os.path.join(d, "manyorigins-replay.ndjson")
+        vlib.run_harness("pool", ["manyorigins", "--n", obj["replay"]["n"], "--seed", obj["replay"]["seed"], "--out", mo])
+        r = vlib.tlc_trace("PoolKeysObs.tla", "PoolKeysObs.cfg", pid, mo, timeout=3000)
+        kv = r.printed("VIOL")
+        if kv and kv[0]:
+            print(f"VIOLATION property={pid} replay={path}")
+            return 1
+        print(f"not reproduced on the current tree: {obj['key']}")
+        return 0
     recs = obj["replay"]["records"]
     d = vlib.outdir(pid)
     # re-execute: turn the recorded actions into a schedule without expectations
